@@ -65,6 +65,8 @@ impl Distribution<f32> for Exp1 {
 impl Distribution<f64> for Exp1 {
     #[inline]
     fn sample<R: Rng + ?Sized>(&self, rng: &mut R) -> f64 {
+        #[cfg(rand_distr_verif)]
+        let _g = crate::verif_hooks::PrimGuard::new(2);
         #[inline]
         fn pdf(x: f64) -> f64 {
             (-x).exp()
